@@ -193,6 +193,41 @@ theorem sameText_is_source (cm : Stdlib.CaseMap) (ps : List (Value N)) : Stdlib.
   · cases a <;> cases b <;> rfl
   · cases a <;> cases b <;> rfl
 
+theorem contains_is_source (ps : List (Value N)) : Stdlib.contains ps = SrcStdlib.contains ps := by
+  rcases ps with _ | ⟨a, _ | ⟨b, _ | ⟨c, r⟩⟩⟩
+  · rfl
+  · cases a <;> rfl
+  · cases a <;> cases b <;> rfl
+  · cases a <;> cases b <;> rfl
+theorem insert_is_source (off : Nat) (ps : List (Value N)) : Stdlib.insert off ps = SrcStdlib.insert off ps := by
+  rcases ps with _ | ⟨a, _ | ⟨b, _ | ⟨c, _ | ⟨d, r⟩⟩⟩⟩
+  · rfl
+  · cases a <;> rfl
+  · cases a <;> cases b <;> rfl
+  · cases a <;> cases b <;> cases c <;>
+      simp only [Stdlib.insert, SrcStdlib.insert, getStringIndex_is_source, getIndex_is_source, bind, Except.bind]
+    all_goals first
+      | rfl
+      | (split <;> simp_all [List.append_assoc])
+  · cases a <;> cases b <;> cases c <;> rfl
+theorem unique_is_source (ps : List (Value N)) : Stdlib.unique ps = SrcStdlib.unique ps := by
+  rcases ps with _ | ⟨a, _ | ⟨b, r⟩⟩
+  · rfl
+  · cases a
+    case arr vs =>
+      have hf : (fun (acc : List (Value N)) (v : Value N) => if acc.any (fun r => Value.eq r v) then acc else acc ++ [v]) =
+          (fun result value => if !(List.any result (fun r => Value.eq r value)) then result ++ [value] else result) := by
+        funext acc v; cases acc.any (fun r => Value.eq r v) <;> rfl
+      simp only [Stdlib.unique, SrcStdlib.unique, Stdlib.dedup, hf]
+    all_goals rfl
+  · cases a <;> rfl
+theorem split_is_source (ps : List (Value N)) : Stdlib.split ps = SrcStdlib.split ps := by
+  rcases ps with _ | ⟨a, _ | ⟨b, _ | ⟨c, r⟩⟩⟩
+  · rfl
+  · cases a <;> rfl
+  · cases a <;> cases b <;> rfl
+  · cases a <;> cases b <;> rfl
+
 /-! ### the position-coherence theorems of C15, restated about the functions translated from the source -/
 section capstone
 variable [LawfulIdx N] (off : Nat)
